@@ -91,20 +91,24 @@ type gcfg struct {
 	Let2       bool     // two-binding let / let*
 	Dotimes    bool
 	Macrolet   bool
-	GSet       bool // (set 'g v) assignments inside expressions
-	FunArg     bool // (function n) and #^ prefix lambdas
-	Styles     int  // defun parameter styles: 1 = plain, 4 = plain,&key,&optional,&rest
-	Packages   bool // in-package / export / use-package / pkg:name
-	Files      bool // file break item
-	Macros     bool // defmacro items
-	QTemplates bool // defmacro templates that mention pkg:name
-	Redefine   bool // the same (package, name) may be defined twice at top level
-	MaxItems   int  // max top-level items before the final expression
-	Data       bool // keyword and quoted-symbol data leaves
-	FixParam   bool // defun parameters always use the last pool name
-	DefNames   int  // number of pool names usable for top-level definitions (0 = all)
-	HoleMaxW   int  // max weight of a hole inside an item (0 = unbounded)
-	FinalMaxW  int  // max weight of the final expression (0 = unbounded)
+	GSet       bool   // (set 'g v) assignments inside expressions
+	FunArg     bool   // (function n) and #^ prefix lambdas
+	Styles     int    // defun parameter styles: 1 = plain, 4 = plain,&key,&optional,&rest
+	Packages   bool   // in-package / export / use-package / pkg:name
+	Files      bool   // file break item
+	Macros     bool   // defmacro items
+	LangName   bool   // Names[0] is a name the language itself binds (builtin, special operator, stock macro, stdlib export)
+	Wrap       string // function that tags function bodies (default list)
+	Prelude    string // text put in front of the first file (costs no weight)
+	Stdlib     bool   // sessions run in a runtime with the standard library loaded
+	QTemplates bool   // defmacro templates that mention pkg:name
+	Redefine   bool   // the same (package, name) may be defined twice at top level
+	MaxItems   int    // max top-level items before the final expression
+	Data       bool   // keyword and quoted-symbol data leaves
+	FixParam   bool   // defun parameters always use the last pool name
+	DefNames   int    // number of pool names usable for top-level definitions (0 = all)
+	HoleMaxW   int    // max weight of a hole inside an item (0 = unbounded)
+	FinalMaxW  int    // max weight of the final expression (0 = unbounded)
 }
 
 // per-skeleton context: what the holes may refer to
@@ -685,7 +689,21 @@ func (g *gen) skeletons(f func(items []item)) {
 // useful reports whether the skeleton is worth filling: structural
 // restrictions that remove programs which cannot exercise anything new
 // (stated in the evidence as part of the grammar).
-func skeletonOK(items []item) bool {
+func skeletonOK(items []item, langName bool) bool {
+	// A global function named like something the language binds must be
+	// defined before anything is evaluated: a reference that runs earlier would
+	// reach the language's binding, i.e. resolve by execution order, not by scope.
+	if langName {
+		evaluated := false
+		for _, it := range items {
+			if it.k == itDefun && it.n == 0 && evaluated {
+				return false
+			}
+			if it.k == itSet || it.k == itStmt {
+				evaluated = true
+			}
+		}
+	}
 	// a package toggle directly followed by another toggle, a break or the
 	// end is an empty section
 	for i, it := range items {
@@ -819,6 +837,7 @@ func contextOf(items []item) *gctx {
 
 type renderer struct {
 	names []string
+	wrap  string
 	lit   int
 	b     strings.Builder
 }
@@ -829,7 +848,7 @@ func (r *renderer) name(i int8) string { return r.names[i] }
 // function a call reached is observable in the value.
 func (r *renderer) body(t *term) {
 	r.lit++
-	r.b.WriteString("(list " + strconv.Itoa(r.lit) + " ")
+	r.b.WriteString("(" + r.wrap + " " + strconv.Itoa(r.lit) + " ")
 	r.term(t)
 	r.b.WriteString(")")
 }
@@ -1105,7 +1124,11 @@ func termFeatures(t *term, f *uint32) {
 
 // render builds the file texts of a filled skeleton.
 func (g *gen) render(items []item) program {
-	r := &renderer{names: g.cfg.Names}
+	r := &renderer{names: g.cfg.Names, wrap: "list"}
+	if g.cfg.Wrap != "" {
+		r.wrap = g.cfg.Wrap
+	}
+	r.b.WriteString(g.cfg.Prelude)
 	var p program
 	var files []string
 	pkg := int8(0)
@@ -1288,7 +1311,7 @@ func (g *gen) render(items []item) program {
 // enumerate visits every program of the configured grammar.
 func (g *gen) enumerate(visit func(p program)) (skeletons int64) {
 	g.skeletons(func(items []item) {
-		if !skeletonOK(items) {
+		if !skeletonOK(items, g.cfg.LangName) {
 			return
 		}
 		skeletons++
